@@ -3025,6 +3025,17 @@ class ContractionTree:
                     r_inds = "".join(sorted(self.get_legs(r), key=rsort))
                     self.info[r]["inds"] = r_inds
 
+        # invalidate the recipes derived from the previous orders (which
+        # survive until here if ``reset=False``)
+        for node in self.children:
+            for k in (
+                "einsum_eq",
+                "can_dot",
+                "tensordot_axes",
+                "tensordot_perm",
+            ):
+                self.info[node].pop(k, None)
+
         # invalidate any compiled contractions
         self.contraction_cores.clear()
 
